@@ -131,9 +131,13 @@ def corpus():
                                                      {'t': 'leaf', 'cls': 'Wait', 'q': [1], 'dur': ['fixed', 1.0], 'ch': 'ALL', 'rel': None}]}],
           'env': {'READOUT': 2.0, 'MICROWAVE': 5.0, 'FLUX': 1.0, 'RESET': 2.0}, 'reg': {},
           'unroll': True, 'compact': True, 'order': None, 'okind': 'none', 'labels': None}
-    return [dict(f8, pre=False), dict(f8, pre=True), F19_WITNESS]
+    return [dict(f8, pre=False), dict(f8, pre=True), F19_WITNESS, F22_WITNESS]
 
 
+# F22 (fixed in 980e845): a sub-circuit with repetition count >= 2 and no operation inside: the repetition highlight raised ValueError
+F22_WITNESS = {'prog': [{'t': 'leaf', 'cls': 'Rx180', 'q': [0], 'rel': None}, {'t': 'sub', 'reps': 2, 'body': []}],
+               'env': {'READOUT': 2.0, 'MICROWAVE': 1.0, 'FLUX': 1.0, 'RESET': 2.0}, 'reg': {},
+               'unroll': False, 'compact': True, 'pre': True, 'order': None, 'okind': 'none', 'labels': None}
 F19_WITNESS = {'prog': [{'t': 'leaf', 'cls': 'VirtualTwoQubitVacant', 'q': [0, 1], 'dur': ['fixed', 2.0], 'ch': 'FLUX', 'rel': None},
                         {'t': 'leaf', 'cls': 'VirtualTwoQubitVacant', 'q': [1, 2], 'dur': ['fixed', 2.0], 'ch': 'FLUX', 'rel': ['S', 0]}],
                'env': {'READOUT': 2.0, 'MICROWAVE': 1.0, 'FLUX': 1.0, 'RESET': 2.0}, 'reg': {},
